@@ -18,6 +18,7 @@ from symfc.utils.eig_tools import dot_product_sparse
 from symfc.utils.solver_funcs import get_batch_slice, solve_linear_equation
 
 from .solver_base import FCSolverBase
+from symfc.utils._verif_hooks import _verif_override
 
 
 class FCSolverO3O4(FCSolverBase):
@@ -188,6 +189,7 @@ def prepare_normal_equation_O3O4(
 
     n_batch = (n_compr_fc3 // 10000 + n_compr_fc4 // 5000 + 1) * (N // 50 + 1)
     n_batch = min(N, n_batch)
+    n_batch = _verif_override("SOLVER_NBATCH", n_batch)
     begin_batch_atom, end_batch_atom = get_batch_slice(N, N // n_batch)
     begin_batch, end_batch = get_batch_slice(disps.shape[0], batch_size)
 
